@@ -21,6 +21,7 @@ import (
 	"sort"
 	"strconv"
 	"strings"
+	"sync"
 	"time"
 
 	"github.com/alicebob/miniredis/v2"
@@ -627,4 +628,60 @@ func C12Restart(s *miniredis.Miniredis, stls bool) error {
 		return s.StartTLS(C12TLS)
 	}
 	return s.Restart()
+}
+
+// C12FakeServer listens on a loopback port and fails every connection in a particular way AFTER accepting it and
+// reading the request: "eof" closes the connection (the client reads a bare io.EOF), "reset" aborts it (RST:
+// connection reset by peer), "hang" keeps it open and never answers.  stop() closes the listener and everything
+// accepted.
+func C12FakeServer(mode string) (addr string, stop func(), err error) {
+	ln, err := net.Listen("tcp", "127.0.0.1:0")
+	if err != nil {
+		return "", nil, err
+	}
+	var mu sync.Mutex
+	var conns []net.Conn
+	closed := false
+	go func() {
+		for {
+			c, err := ln.Accept()
+			if err != nil {
+				return
+			}
+			mu.Lock()
+			if closed {
+				mu.Unlock()
+				c.Close()
+				return
+			}
+			conns = append(conns, c)
+			mu.Unlock()
+			go func(c net.Conn) {
+				buf := make([]byte, 4096)
+				for {
+					n, err := c.Read(buf)
+					if err != nil {
+						c.Close()
+						return
+					}
+					if n > 0 && mode != "hang" {
+						if tc, ok := c.(*net.TCPConn); ok && mode == "reset" {
+							tc.SetLinger(0)
+						}
+						c.Close()
+						return
+					}
+				}
+			}(c)
+		}
+	}()
+	return ln.Addr().String(), func() {
+		mu.Lock()
+		closed = true
+		for _, c := range conns {
+			c.Close()
+		}
+		mu.Unlock()
+		ln.Close()
+	}, nil
 }
